@@ -353,6 +353,7 @@ def _(c):
 # Form.__call__ and the form setter
 # ---------------------------------------------------------------------------------------------
 
+@contract("C15", "form_call", funcs=[f"{FORM}.__call__"], assumptions=["path / steps by C20 (routing on the real form graph, which is a tree)"])
 @contract("C01", "call.compose", funcs=[f"{FORM}.__call__", f"{SV}:StateVector.form.fset"],
           assumptions=["path / steps by C20 (routing on the real form graph, which is a tree)"])
 def _(c):
@@ -385,7 +386,9 @@ def _(c):
             return Coord(self)
     A, B, Cc = (types.SimpleNamespace(name=n) for n in ("AAA", "BBB", "CCC"))
     body = object()
-    orbit = types.SimpleNamespace(form=A, frame=types.SimpleNamespace(center=types.SimpleNamespace(body=body)), copy=lambda: Coord(["x0"]))
+    own_memory = Coord(["x0"])     # the receiver's own coordinates (what .base / a view of it would hand out): must never be what is returned or passed on
+    orbit = types.SimpleNamespace(form=A, frame=types.SimpleNamespace(center=types.SimpleNamespace(body=body)), copy=lambda: Coord(["x0"]), base=own_memory,
+                                  view=lambda *a, **k: own_memory, __array__=lambda *a, **k: own_memory)
     w = c.world(stubs={"beyond.utils.node:Node.steps": lambda self, goal: iter([(A, B), (B, Cc)]) if goal == "CCC" else iter([])})
     me = w.obj(FORM, name="AAA")
     d = object.__getattribute__(me, "__dict__")
@@ -393,8 +396,9 @@ def _(c):
     d["_bbb_to_ccc"] = lambda coord, b: calls.append(("bc", coord, b)) or Coord(["x2"])
     out = me(orbit, "CCC")
     c.ensure("fold", bool(out == ["x2"] and [x[0] for x in calls] == ["ab", "bc"] and calls[0][1] == ["x0"] and calls[1][1] == ["x1"] and all(x[2] is body for x in calls)))
+    c.ensure("edges_work_on_a_copy", bool(calls[0][1] is not own_memory))
     same = me(orbit, "AAA")
-    c.ensure("same_form_is_a_copy", bool(same == ["x0"] and len(calls) == 2))
+    c.ensure("same_form_is_a_copy", bool(same == ["x0"] and same is not own_memory and len(calls) == 2))
     out2 = me(orbit, Cc.__class__(name="CCC")) if False else me(orbit, "CCC")
     c.ensure("deterministic", bool(out2 == ["x2"]))
 
